@@ -152,12 +152,15 @@ package fiber
 //@   panics
 //@   requires separate-lists: app.mountFields != nil && app.mountFields.appList != nil && subApp.mountFields != nil && subApp.mountFields.appList != nil && app.mountFields.appList != subApp.mountFields.appList
 //@   requires joined-prefixes-distinct: forallS(a, forallS(b, indom(subApp.mountFields.appList, a) && indom(subApp.mountFields.appList, b) && a != b ==> forallS(p, joinedPath(p, a) != joinedPath(p, b))))
+//@   requires sub-app-lists-itself: indom(subApp.mountFields.appList, "") && subApp.mountFields.appList[""] == subApp
 //@   loop 1
 //@     invariant registered-so-far: (last(@utils.TrimRight) == "" ==> seenListed(app, "/")) && (last(@utils.TrimRight) != "" ==> seenListed(app, last(@utils.TrimRight)))
+//@     invariant own-entry-joins-to-the-prefix: seen("") ==> (last(@utils.TrimRight) == "" ==> joinedPath("/", "") == "/") && (last(@utils.TrimRight) != "" ==> joinedPath(last(@utils.TrimRight), "") == last(@utils.TrimRight))
 //@     invariant nothing-dropped: forallS(k, old(indom(app.mountFields.appList, k)) ==> indom(app.mountFields.appList, k))
 //@     invariant sub-list-unchanged: forallS(k, (indom(subApp.mountFields.appList, k) <==> old(indom(subApp.mountFields.appList, k))) && subApp.mountFields.appList[k] == old(subApp.mountFields.appList[k]))
 //@     invariant seen-are-listed-in-sub: forallS(k, seen(k) ==> indom(subApp.mountFields.appList, k))
 //@   atcall (*App).register: whole-subtree-registered: (last(@utils.TrimRight) == "" ==> subtreeListed(app, "/")) && (last(@utils.TrimRight) != "" ==> subtreeListed(app, last(@utils.TrimRight)))
+//@   atcall (*App).register: the-sub-app-itself-under-the-prefix: (last(@utils.TrimRight) == "" ==> indom(app.mountFields.appList, "/") && app.mountFields.appList["/"] == old(subApp)) && (last(@utils.TrimRight) != "" ==> indom(app.mountFields.appList, last(@utils.TrimRight)) && app.mountFields.appList[last(@utils.TrimRight)] == old(subApp))
 //@   atcall (*App).register: nothing-dropped: forallS(k, old(indom(app.mountFields.appList, k)) ==> indom(app.mountFields.appList, k))
 //@   atcall (*App).register: [C04] marker-under-normalised-prefix: isTrimmed(last(@utils.TrimRight), old(prefix)) && (last(@utils.TrimRight) == "" ==> pathRaw == "/") && (last(@utils.TrimRight) != "" ==> pathRaw == last(@utils.TrimRight))
 //@   atcall (*App).register: [C04] marker-of-the-sub-app: arg0 == app && group != nil && group.Prefix == pathRaw && group.app == old(subApp) && len(handlers) == 0 && len(methods) == 1 && methods[0] == "USE"
@@ -167,12 +170,15 @@ package fiber
 //@   panics
 //@   requires separate-lists: grp.app != nil && grp.app.mountFields != nil && grp.app.mountFields.appList != nil && subApp.mountFields != nil && subApp.mountFields.appList != nil && grp.app.mountFields.appList != subApp.mountFields.appList
 //@   requires joined-prefixes-distinct: forallS(a, forallS(b, indom(subApp.mountFields.appList, a) && indom(subApp.mountFields.appList, b) && a != b ==> forallS(p, joinedPath(p, a) != joinedPath(p, b))))
+//@   requires sub-app-lists-itself: indom(subApp.mountFields.appList, "") && subApp.mountFields.appList[""] == subApp
 //@   loop 1
 //@     invariant registered-so-far: (last(@utils.TrimRight) == "" ==> seenListed(grp.app, "/")) && (last(@utils.TrimRight) != "" ==> seenListed(grp.app, last(@utils.TrimRight)))
+//@     invariant own-entry-joins-to-the-prefix: seen("") ==> (last(@utils.TrimRight) == "" ==> joinedPath("/", "") == "/") && (last(@utils.TrimRight) != "" ==> joinedPath(last(@utils.TrimRight), "") == last(@utils.TrimRight))
 //@     invariant nothing-dropped: forallS(k, old(indom(grp.app.mountFields.appList, k)) ==> indom(grp.app.mountFields.appList, k))
 //@     invariant sub-list-unchanged: forallS(k, (indom(subApp.mountFields.appList, k) <==> old(indom(subApp.mountFields.appList, k))) && subApp.mountFields.appList[k] == old(subApp.mountFields.appList[k]))
 //@     invariant seen-are-listed-in-sub: forallS(k, seen(k) ==> indom(subApp.mountFields.appList, k))
 //@   atcall (*App).register: whole-subtree-registered: (last(@utils.TrimRight) == "" ==> subtreeListed(grp.app, "/")) && (last(@utils.TrimRight) != "" ==> subtreeListed(grp.app, last(@utils.TrimRight)))
+//@   atcall (*App).register: the-sub-app-itself-under-the-prefix: (last(@utils.TrimRight) == "" ==> indom(grp.app.mountFields.appList, "/") && grp.app.mountFields.appList["/"] == old(subApp)) && (last(@utils.TrimRight) != "" ==> indom(grp.app.mountFields.appList, last(@utils.TrimRight)) && grp.app.mountFields.appList[last(@utils.TrimRight)] == old(subApp))
 //@   atcall (*App).register: nothing-dropped: forallS(k, old(indom(grp.app.mountFields.appList, k)) ==> indom(grp.app.mountFields.appList, k))
 //@   atcall (*App).register: [C04] marker-under-normalised-joined-prefix: isTrimmed(last(@utils.TrimRight), joinedPath(old(grp.Prefix), old(prefix))) && (last(@utils.TrimRight) == "" ==> pathRaw == "/") && (last(@utils.TrimRight) != "" ==> pathRaw == last(@utils.TrimRight))
 //@   atcall (*App).register: [C04] marker-of-the-sub-app: arg0 == grp.app && group != nil && group.Prefix == pathRaw && group.app == old(subApp) && len(handlers) == 0 && len(methods) == 1 && methods[0] == "USE"
@@ -180,10 +186,40 @@ package fiber
 // Start-up completion of the list for sub-apps that mounted further apps after they were mounted themselves:
 // entries are only ADDED (under prefixes that are still free); an existing entry is never dropped or replaced,
 // so what ErrorHandler sees for a prefix does not depend on the order in which the lists are walked.
+// R = app.mountFields.appList is the root's list, L = appList the list that is walked, pp the parent prefix
+// (parent[0], "" for the top-level call, which walks R itself). Every statement is over the keys L had at ENTRY
+// (Go may or may not visit entries that are added during a range; the top-level call adds to the map it walks).
+//   hasSubs(s)      the code's own test "s has sub-apps" (len(list) > 1: the first element is always the app itself)
+//   subsEntered     every sub-app of s is entered below q
+//   walkedListed    the walked list is the root's own or that of the app entered under the parent prefix (only such
+//                   lists are known to stay as they are while the walk adds to R: no frame narrower than "all
+//                   prefix->app maps" can be written, the clause sublists-of-listed-apps-unchanged carries it)
+//@ macro hasSubs(s) = len(s.mountFields.appList) > 1
+//@ macro subsEntered(app, q, s) = forallS(i, i != "" && indom(s.mountFields.appList, i) ==> indom(app.mountFields.appList, joinedPath(q, i)))
+//@ macro subUnchanged(app, k) = forallS(i, (indom(app.mountFields.appList[k].mountFields.appList, i) <==> old(indom(app.mountFields.appList[k].mountFields.appList, i))) && app.mountFields.appList[k].mountFields.appList[i] == old(app.mountFields.appList[k].mountFields.appList[i]))
+//@ macro ownList(app, s) = s.mountFields.appList == app.mountFields.appList
+//@ macro closedAt(app, k) = hasSubs(app.mountFields.appList[k]) && !ownList(app, app.mountFields.appList[k]) ==> subsEntered(app, k, app.mountFields.appList[k])
+// The mount list is closed: every sub-app of every listed app is listed under the joined prefix - so, by induction
+// over a chain root -> a -> b -> ... of mounts made in ANY order, every app of the chain is listed.
+//@ macro closedList(app) = forallS(k, indom(app.mountFields.appList, k) && k != "" ==> closedAt(app, k))
+//@ macro walkedListed(app, appList, parent) = appList == app.mountFields.appList || (len(parent) > 0 && parent[0] != "" && indom(app.mountFields.appList, parent[0]) && app.mountFields.appList[parent[0]].mountFields.appList == appList)
 //@ func (*App).appendSubAppLists
 //@   requires list-made: app.mountFields != nil && app.mountFields.appList != nil
 // (frame: the map-of-apps heaps; E_string is the backing array of the variadic argument of the recursive call)
 //@   modifies heap(MD_string_p_fiber_App), heap(MV_string_p_fiber_App), heap(E_string)
 //@   loop 1
 //@     invariant existing-entries-kept: forallS(k, old(indom(app.mountFields.appList, k)) ==> indom(app.mountFields.appList, k) && app.mountFields.appList[k] == old(app.mountFields.appList[k]))
+//@     invariant sublists-of-listed-apps-unchanged: forallS(k, old(indom(app.mountFields.appList, k)) && k != "" && !ownList(app, app.mountFields.appList[k]) ==> subUnchanged(app, k))
+//@     invariant walked-list-kept: old(walkedListed(app, appList, parent)) ==> forallS(j, old(indom(appList, j)) ==> indom(appList, j) && appList[j] == old(appList[j]))
+//@     invariant every-visited-entry-entered: (parentPrefix == "" ==> forallS(j, seen(j) && j != "" ==> indom(app.mountFields.appList, j))) && (parentPrefix != "" ==> forallS(j, seen(j) && j != "" ==> indom(app.mountFields.appList, joinedPath(parentPrefix, j))))
+//@     invariant new-entries-closed: forallS(k, indom(app.mountFields.appList, k) && k != "" && !old(indom(app.mountFields.appList, k)) ==> closedAt(app, k))
+//@     invariant known-entries-walked-too: appList == app.mountFields.appList && parentPrefix == "" ==> forallS(j, seen(j) && old(indom(app.mountFields.appList, j)) && j != "" ==> closedAt(app, j))
+//@   atcall (*App).appendSubAppLists: recursion-into-the-visited-sub-app-under-its-joined-prefix: arg0 == app && arg1 == subApp.mountFields.appList && len(arg2) == 1 && arg2[0] == prefix && indom(app.mountFields.appList, prefix)
+//@   atcall (*App).appendSubAppLists: visited-sub-app-entered-unless-the-prefix-was-taken: ok || app.mountFields.appList[prefix] == subApp
 //@   ensures existing-entries-kept: forallS(k, old(indom(app.mountFields.appList, k)) ==> indom(app.mountFields.appList, k) && app.mountFields.appList[k] == old(app.mountFields.appList[k]))
+//@   ensures sublists-of-listed-apps-unchanged: forallS(k, old(indom(app.mountFields.appList, k)) && k != "" && !ownList(app, app.mountFields.appList[k]) ==> subUnchanged(app, k))
+//@   ensures every-entry-entered: old(walkedListed(app, appList, parent)) ==> (old(len(parent) == 0 || parent[0] == "") ==> forallS(j, old(indom(appList, j)) && j != "" ==> indom(app.mountFields.appList, j))) &&
+//@ ..   (old(len(parent) > 0 && parent[0] != "") ==> forallS(j, old(indom(appList, j)) && j != "" ==> indom(app.mountFields.appList, joinedPath(old(parent[0]), j))))
+//@   ensures new-entries-closed: forallS(k, indom(app.mountFields.appList, k) && k != "" && !old(indom(app.mountFields.appList, k)) ==> closedAt(app, k))
+//@   ensures never-skips-a-known-entry: appList == app.mountFields.appList && old(len(parent) == 0 || parent[0] == "") ==> forallS(j, old(indom(app.mountFields.appList, j)) && j != "" ==> closedAt(app, j))
+//@   ensures mount-list-closed: appList == app.mountFields.appList && old(len(parent) == 0 || parent[0] == "") ==> closedList(app)
